@@ -85,19 +85,30 @@ def compare(spec, p_out, s_out, info, pc: Optional[C.PrefixCache]) -> Tuple[str,
     if not same_keys and ok:
         return "fail:order", "same rows, different order: pandas keys %r sqlite keys %r (order_rows %r reverse %r)" % (kp, ks, ocols, order.get("reverse"))
     if order.get("limit") is not None and same_keys and pc is not None:
-        # ties crossing the cut: accept when both are valid prefixes of the unlimited result
+        # ties crossing the cut: accepted iff some back end's own input to the final step makes BOTH results
+        # valid first-n prefixes (the choice among rows tied at the cut is free).  Convention cells are
+        # neutralised first: ignored columns are dropped and, in the sum/count-family columns of an
+        # affected case, 0 and null are identified (exactly the accepted difference, nothing more).
         n = len(spec["steps"]) - 1
         fp, fs = pc.rows(n, backend="pandas"), pc.rows(n, backend="sqlite")
-        if not ignore and extra is None:
-            # accepted iff some back end's own input to the final step makes BOTH results valid first-n
-            # prefixes (the choice among rows tied at the cut is free)
-            for full in (fp, fs):
-                if full[0] != "ok":
-                    continue
-                okp, _ = C.check_order_limit(P[0], P[1], full[1], full[2], ocols, order.get("reverse") or [], order["limit"])
-                oks, _ = C.check_order_limit(S[0], S[1], full[1], full[2], ocols, order.get("reverse") or [], order["limit"])
-                if okp and oks:
-                    return "ok", "tie crossing the limit"
+
+        def norm(cols, rows):
+            keep = [c for c in cols if c not in set(ignore)]
+            idx = [list(cols).index(c) for c in keep]
+            out = []
+            for r in rows:
+                out.append(tuple((None if (c in agg0 and isinstance(r[i], (int, float)) and not isinstance(r[i], bool) and float(r[i]) == 0.0) else r[i]) for c, i in zip(keep, idx)))
+            return keep, out
+
+        Pn, Sn = norm(*P), norm(*S)
+        for full in (fp, fs):
+            if full[0] != "ok":
+                continue
+            Fn = norm(full[1], full[2])
+            okp, _ = C.check_order_limit(Pn[0], Pn[1], Fn[0], Fn[1], ocols, order.get("reverse") or [], order["limit"])
+            oks, _ = C.check_order_limit(Sn[0], Sn[1], Fn[0], Fn[1], ocols, order.get("reverse") or [], order["limit"])
+            if okp and oks:
+                return "ok", "tie crossing the limit"
     return ("fail:order" if not same_keys else "fail:rows"), why + " | pandas keys %r sqlite keys %r" % (kp, ks)
 
 
